@@ -27,7 +27,7 @@ import torch
 
 SLICE_POLICIES = ("pos", "offset", "stride", "gaps", "reversed", "shuffled", "constant", "global")
 ENTRIES = ("predict", "recon", "evaluate", "validation_loop", "inference")
-HISTORIES = ("fresh", "after-other", "after-break", "interleaved", "second-pass")
+HISTORIES = ("fresh", "after-other", "after-break", "interleaved", "second-pass", "after-error")
 
 
 def fname(v: int) -> str:
@@ -107,6 +107,7 @@ class MarkerDataset(torch.utils.data.Dataset):
                  delay_seed=None):
         self.ndim = 2
         self.delay_seed = delay_seed      # items take a random time to load (only matters with loader workers)
+        self.fail_at = None               # index of an unreadable item (history "after-error")
         self.text_description = text_description
         self.volume_indices = collections.OrderedDict()
         self.items = []
@@ -126,6 +127,8 @@ class MarkerDataset(torch.utils.data.Dataset):
         if self.delay_seed is not None:
             import time
             time.sleep(random.Random(self.delay_seed * 1000 + i).choice([0, 0, 0.002, 0.005]))
+        if self.fail_at is not None and i == self.fail_at:
+            raise OSError("unreadable slice")
         v, _s = self.items[i]
         m = self.data[i]
         h, w = m.shape[0], m.shape[1]
@@ -270,6 +273,16 @@ def run_entry(case, ds, rank, tmp: pathlib.Path):
         gen = eng.reconstruct_volumes(build_loader(other, 1, 0, 1, 0), add_target=True, crop=None)
         next(gen)                       # first volume of `other` yielded, its second volume not started: abandon
         del gen
+
+    elif hist == "after-error":
+        # an earlier reconstruction on this engine died in the middle of a volume (an unreadable slice)
+        other, _ = other_dataset(case)
+        n0 = len(next(iter(other.volume_indices.values())))
+        other.fail_at = n0 - 1 if n0 >= 2 else n0          # last slice of the first volume (or first of the second)
+        try:
+            list(eng.reconstruct_volumes(build_loader(other, 1, 0, 1, 0), add_target=True, crop=None))
+        except OSError:
+            pass
 
     if entry == "predict":
         if hist == "second-pass":
